@@ -88,6 +88,7 @@ class TriggerHandler:
         """
         self.__old_thread_trace = None
         self.__old_sys_trace = None
+        self.__installed = False
         self._push_service = push_service
         self._tp_config: List[Trigger] = []
         self._config = config
@@ -106,6 +107,7 @@ class TriggerHandler:
         self.__old_thread_trace = threading.gettrace() if hasattr(threading, 'gettrace') else threading._trace_hook
         sys.settrace(self.trace_call)
         threading.settrace(self.trace_call)
+        self.__installed = True
 
     def new_config(self, new_config: List['Trigger']):
         """
@@ -232,5 +234,9 @@ class TriggerHandler:
 
         Reset the settrace to the previous values.
         """
+        if not self.__installed:
+            # we did not install our trace functions (NO_TRACE), so there is nothing to put back
+            return
+        self.__installed = False
         sys.settrace(self.__old_sys_trace)
         threading.settrace(self.__old_thread_trace)
